@@ -11,7 +11,6 @@ pub uninterp spec fn fd_path(n: int) -> Seq<u8>;       // "fd/<n>" in decimal
 pub uninterp spec fn cwd_path() -> Seq<u8>;           // "cwd"
 /// the descriptor was opened through the procfs handle at (base, subpath) (A6 for base=thread-self, fd/<n>)
 pub uninterp spec fn opened_via_procfs(fd: int, base: ProcfsBase, subpath: Seq<u8>, follow: bool) -> bool;
-pub uninterp spec fn requested_flags_of(fd: int) -> i32;
 impl AsRefPath for String {
     uninterp spec fn pview(&self) -> Seq<u8>;
     #[verifier::external_body]
